@@ -1248,3 +1248,459 @@ Example ex_domain x : 0 <= x < 8 ->
 Proof. unfold b_start, b_end, kn, ex_knots. cbn. lra. Qed.
 Example ex_interior : @kn R NumR ex_knots (4 + 3 - 1) <= 9/2 < @kn R NumR ex_knots 8.
 Proof. unfold kn, ex_knots. cbn. lra. Qed.
+
+Example ex_right : @py_bisect_right R NumR ex_knots (1/2) = 4%nat.     (* mu = 4 <= p + r = 6: repair_right *)
+Proof.
+  destruct (mu_bracket_per ex_knots 4 3 8 8 ex_canon (1/2)) as [Hmu [H1 H2]]; [unfold kn, ex_knots; cbn; lra|].
+  remember (@py_bisect_right R NumR ex_knots (1/2)) as m.
+  assert (Hc : (m = 4 \/ m = 5 \/ m = 6 \/ m = 7 \/ m = 8 \/ m = 9 \/ m = 10 \/ m = 11)%nat) by lia.
+  destruct Hc as [->|[->|[->|[->|[->|[->|[->| ->]]]]]]]; try reflexivity; exfalso; unfold kn, ex_knots in H1, H2; cbn in H1, H2; lra.
+Qed.
+Example ex_left : @py_bisect_right R NumR ex_knots (15/2) = 11%nat.    (* mu = 11 >= n + 1 = 9: repair_left *)
+Proof.
+  destruct (mu_bracket_per ex_knots 4 3 8 8 ex_canon (15/2)) as [Hmu [H1 H2]]; [unfold kn, ex_knots; cbn; lra|].
+  remember (@py_bisect_right R NumR ex_knots (15/2)) as m.
+  assert (Hc : (m = 4 \/ m = 5 \/ m = 6 \/ m = 7 \/ m = 8 \/ m = 9 \/ m = 10 \/ m = 11)%nat) by lia.
+  destruct Hc as [->|[->|[->|[->|[->|[->|[->| ->]]]]]]]; try reflexivity; exfalso; unfold kn, ex_knots in H1, H2; cbn in H1, H2; lra.
+Qed.
+
+(* ------------------------------------------------------------------------------------------------ *)
+(* Part 5: spec level, knot functions: the periodic refinement                                      *)
+(* ------------------------------------------------------------------------------------------------ *)
+Section PeriodicBoehm.
+Variable K : nat -> R.
+Hypothesis HK : sorted K.
+Variables (q n : nat) (T : R).
+Hypothesis Hper : forall i, K (i + n)%nat = K i + T.          (* exact periodic images, ALL i *)
+Variable c : nat -> R.
+Hypothesis Hc : forall i, c (i + n)%nat = c i.                (* n-periodic coefficients *)
+Variables (mu : nat) (x : R).
+Hypothesis Hmu : (q < mu <= n)%nat.                            (* x in [K q, K n): in the domain and in the first period *)
+Hypothesis Hx : K (mu - 1)%nat <= x < K mu.
+
+Let Hmu1 : (1 <= mu)%nat. Proof. lia. Qed.
+
+(* the periodic refinement: x + a T inserted for every a >= 0; index mu + a (n+1) carries x + a T *)
+Definition Kp (i : nat) : R :=
+  if (i <? mu)%nat then K i
+  else if ((i - mu) mod (n + 1) =? 0)%nat then x + INR ((i - mu) / (n + 1)) * T
+  else K (i - 1 - (i - mu) / (n + 1))%nat.
+(* the (n+1)-periodic coefficients: Boehm's convex combination on the indices 0 .. n *)
+Definition cp (i : nat) : R := bcoef K mu x q c (i mod (n + 1)).
+
+Lemma K_mul a : forall i, K (i + a * n)%nat = K i + INR a * T.
+Proof.
+  induction a as [|a IH]; intros i.
+  - cbn [Nat.mul INR]. rewrite Nat.add_0_r. ring.
+  - replace (i + S a * n)%nat with ((i + a * n) + n)%nat by lia. rewrite Hper, IH, S_INR. ring.
+Qed.
+Lemma c_mul a : forall i, c (i + a * n)%nat = c i.
+Proof.
+  induction a as [|a IH]; intros i.
+  - cbn [Nat.mul]. rewrite Nat.add_0_r. reflexivity.
+  - replace (i + S a * n)%nat with ((i + a * n) + n)%nat by lia. rewrite Hc. apply IH.
+Qed.
+
+Lemma Kp_periodic i : Kp (i + (n + 1)) = Kp i + T.
+Proof.
+  unfold Kp. destruct (Nat.ltb_spec i mu) as [A|A].
+  - destruct (Nat.ltb_spec (i + (n + 1)) mu); [lia|].
+    rewrite (Nat.mod_small (i + (n + 1) - mu)) by lia. rewrite (Nat.div_small (i + (n + 1) - mu)) by lia.
+    destruct (Nat.eqb_spec (i + (n + 1) - mu) 0); [lia|].
+    replace (i + (n + 1) - 1 - 0)%nat with (i + n)%nat by lia. apply Hper.
+  - destruct (Nat.ltb_spec (i + (n + 1)) mu); [lia|].
+    replace (i + (n + 1) - mu)%nat with ((i - mu) + 1 * (n + 1))%nat by lia.
+    rewrite Nat.mod_add, Nat.div_add by lia.
+    pose proof (Nat.div_mod (i - mu) (n + 1) ltac:(lia)) as E.
+    pose proof (Nat.mod_upper_bound (i - mu) (n + 1) ltac:(lia)) as Bd.
+    set (a := ((i - mu) / (n + 1))%nat) in *. set (r0 := ((i - mu) mod (n + 1))%nat) in *.
+    destruct (Nat.eqb_spec r0 0) as [Z|Z].
+    + rewrite plus_INR. cbn [INR]. ring.
+    + replace (i + (n + 1) - 1 - (a + 1))%nat with ((i - 1 - a) + n)%nat by nia. apply Hper.
+Qed.
+
+Lemma cp_periodic i : cp (i + (n + 1)) = cp i.
+Proof. unfold cp. replace (i + (n + 1))%nat with (i + 1 * (n + 1))%nat by lia. rewrite Nat.mod_add by lia. reflexivity. Qed.
+
+(* the images inserted one at a time *)
+Definition mua (a : nat) : nat := (mu + a * (n + 1))%nat.
+Fixpoint Kins (a : nat) : nat -> R :=
+  match a with O => K | S a' => k' (Kins a') (mua a') (x + INR a' * T) end.
+Fixpoint cins (a : nat) : nat -> R :=
+  match a with O => c | S a' => bcoef (Kins a') (mua a') (x + INR a' * T) q (cins a') end.
+
+Lemma Kins_inv a :
+  sorted (Kins a) /\
+  (forall i, (i < mua a)%nat -> Kins a i = Kp i) /\
+  (forall i, (mua a <= i + n)%nat -> Kins a i = K (i - a)%nat).
+Proof.
+  induction a as [|a (IS & I1 & I2)].
+  - split; [exact HK|]. split.
+    + intros i Hi. unfold mua in Hi. cbn [Kins]. unfold Kp. destruct (Nat.ltb_spec i mu); [reflexivity|lia].
+    + intros i _. cbn [Kins]. f_equal. lia.
+  - assert (Hm1 : (1 <= mua a)%nat) by (unfold mua; lia).
+    assert (Hb : Kins a (mua a - 1)%nat <= x + INR a * T < Kins a (mua a)).
+    { rewrite !I2 by (unfold mua; lia). unfold mua.
+      replace (mu + a * (n + 1) - 1 - a)%nat with ((mu - 1) + a * n)%nat by nia.
+      replace (mu + a * (n + 1) - a)%nat with (mu + a * n)%nat by nia. rewrite !K_mul. lra. }
+    split; [|split].
+    + cbn [Kins]. apply (k'_sorted (Kins a) IS (mua a) _ Hm1 (proj1 Hb) (proj2 Hb)).
+    + intros i Hi. cbn [Kins]. unfold mua in Hi.
+      destruct (lt_eq_lt_dec i (mua a)) as [[L|L]|L].
+      * rewrite (k'_lt (Kins a) (mua a) _ Hm1) by exact L. apply I1. exact L.
+      * subst i. rewrite k'_eq. unfold Kp, mua. destruct (Nat.ltb_spec (mu + a * (n + 1)) mu); [lia|].
+        replace (mu + a * (n + 1) - mu)%nat with (a * (n + 1))%nat by lia.
+        rewrite Nat.mod_mul, Nat.div_mul by lia. reflexivity.
+      * rewrite (k'_gt (Kins a) (mua a) _ Hm1) by exact L. unfold mua in L. rewrite I2 by (unfold mua; lia).
+        unfold Kp. destruct (Nat.ltb_spec i mu); [lia|].
+        assert (E : (i - mu = (i - mua a) + a * (n + 1))%nat) by (unfold mua; lia).
+        rewrite E. rewrite Nat.mod_add, Nat.div_add by lia.
+        rewrite (Nat.mod_small (i - mua a)) by (unfold mua; lia). rewrite (Nat.div_small (i - mua a)) by (unfold mua; lia).
+        destruct (Nat.eqb_spec (i - mua a) 0); [unfold mua in *; lia|]. f_equal; lia.
+    + intros i Hi. cbn [Kins]. unfold mua in Hi.
+      rewrite (k'_gt (Kins a) (mua a) _ Hm1) by (unfold mua; lia). rewrite I2 by (unfold mua; lia). f_equal. lia.
+Qed.
+
+Lemma Kins_bracket a : Kins a (mua a - 1)%nat <= x + INR a * T < Kins a (mua a).
+Proof.
+  destruct (Kins_inv a) as (_ & _ & I2). rewrite !I2 by (unfold mua; lia). unfold mua.
+  replace (mu + a * (n + 1) - 1 - a)%nat with ((mu - 1) + a * n)%nat by nia.
+  replace (mu + a * (n + 1) - a)%nat with (mu + a * n)%nat by nia. rewrite !K_mul. lra.
+Qed.
+
+Theorem Kp_sorted : sorted Kp.
+Proof.
+  intros i j Hij. destruct (Kins_inv (S j)) as (IS & I1 & _).
+  rewrite <- !I1 by (unfold mua; nia). apply IS. exact Hij.
+Qed.
+
+(* the ratios of step a are the ratios of the first step, shifted by a periods *)
+Lemma alpha_ins a r0 : (mu - q <= r0 < mu)%nat ->
+  alpha (Kins a) (mua a) (x + INR a * T) q (a * (n + 1) + r0) = alpha K mu x q r0.
+Proof.
+  intros Hr. destruct (Kins_inv a) as (_ & _ & I2).
+  rewrite (alpha_mid (Kins a) (mua a) _ ltac:(unfold mua; lia) q) by (unfold mua; lia).
+  rewrite (alpha_mid K mu x Hmu1 q r0) by lia.
+  rewrite !I2 by (unfold mua; lia).
+  replace (a * (n + 1) + r0 + q - a)%nat with ((r0 + q) + a * n)%nat by nia.
+  replace (a * (n + 1) + r0 - a)%nat with (r0 + a * n)%nat by nia. rewrite !K_mul.
+  replace (x + INR a * T - (K r0 + INR a * T)) with (x - K r0) by ring.
+  replace (K (r0 + q)%nat + INR a * T - (K r0 + INR a * T)) with (K (r0 + q)%nat - K r0) by ring. reflexivity.
+Qed.
+
+Lemma cp_low i : (i + q < mu)%nat -> cp i = c i.
+Proof.
+  intros Hi. unfold cp. rewrite Nat.mod_small by lia. unfold bcoef. rewrite (alpha_one K mu x Hmu1 q i) by lia. ring.
+Qed.
+
+(* the coefficients after a steps: settled (= cp) below mua a - q, still the old ones (shifted by a) from mua a - q - 1 on *)
+Lemma cins_inv a :
+  (forall i, (i + q < mua a)%nat -> cins a i = cp i) /\
+  (forall i, (mua a <= i + q + 1)%nat -> cins a i = c (i - a)%nat).
+Proof.
+  induction a as [|a (J1 & J2)].
+  - split.
+    + intros i Hi. unfold mua in Hi. cbn [cins]. symmetry. apply cp_low. lia.
+    + intros i _. cbn [cins]. f_equal. lia.
+  - assert (Hm1 : (1 <= mua a)%nat) by (unfold mua; lia).
+    split.
+    + intros i Hi. unfold mua in Hi. cbn [cins]. unfold bcoef at 1.
+      destruct (Nat.lt_ge_cases (i + q) (mua a)) as [A|A].
+      * rewrite (alpha_one (Kins a) (mua a) _ Hm1 q i) by exact A. rewrite J1 by exact A. ring.
+      * unfold mua in A.
+        destruct (Nat.lt_ge_cases i (mua a)) as [B|B].
+        -- (* the mixed range: i = a (n+1) + r0, mu - q <= r0 < mu *)
+           unfold mua in B. set (r0 := (i - a * (n + 1))%nat).
+           assert (Ei : i = (a * (n + 1) + r0)%nat) by (unfold r0; lia).
+           pose proof (alpha_ins a r0 ltac:(unfold r0; lia)) as EA. rewrite <- Ei in EA. rewrite EA. clear EA.
+           rewrite (J2 i) by (unfold mua; lia). rewrite (J2 (i - 1)%nat) by (unfold mua; lia).
+           unfold cp. replace (i mod (n + 1))%nat with r0.
+           2:{ rewrite Ei. rewrite Nat.add_comm, Nat.mod_add by lia. symmetry. apply Nat.mod_small. unfold r0. lia. }
+           unfold bcoef.
+           replace (i - a)%nat with (r0 + a * n)%nat by (unfold r0; nia).
+           replace (i - 1 - a)%nat with ((r0 - 1) + a * n)%nat by (unfold r0; nia). rewrite !c_mul. reflexivity.
+        -- (* beyond the new image: the old coefficient shifted by one more *)
+           rewrite (alpha_zero (Kins a) (mua a) _ Hm1 q i) by exact B. unfold mua in B.
+           rewrite (J2 (i - 1)%nat) by (unfold mua; lia).
+           replace (0 * cins a i + (1 - 0) * c (i - 1 - a)%nat) with (c (i - 1 - a)%nat) by ring.
+           set (r0 := (i - a * (n + 1))%nat).
+           assert (Ei : i = (a * (n + 1) + r0)%nat) by (unfold r0; lia).
+           assert (Hr0 : (mu <= r0 < mu + (n + 1) - q)%nat) by (unfold r0; lia).
+           unfold cp. destruct (Nat.le_gt_cases r0 n) as [L|L].
+           ++ replace (i mod (n + 1))%nat with r0.
+              2:{ rewrite Ei. rewrite Nat.add_comm, Nat.mod_add by lia. symmetry. apply Nat.mod_small. lia. }
+              unfold bcoef. rewrite (alpha_zero K mu x Hmu1 q r0) by lia.
+              replace (i - 1 - a)%nat with ((r0 - 1) + a * n)%nat by (unfold r0; nia). rewrite c_mul. ring.
+           ++ replace (i mod (n + 1))%nat with (r0 - (n + 1))%nat.
+              2:{ rewrite Ei. replace (a * (n + 1) + r0)%nat with ((r0 - (n + 1)) + (a + 1) * (n + 1))%nat by nia.
+                  rewrite Nat.mod_add by lia. symmetry. apply Nat.mod_small. lia. }
+              unfold bcoef. rewrite (alpha_one K mu x Hmu1 q (r0 - (n + 1))) by lia.
+              replace (i - 1 - a)%nat with ((r0 - (n + 1)) + (a + 1) * n)%nat by (unfold r0; nia). rewrite c_mul. ring.
+    + intros i Hi. unfold mua in Hi. cbn [cins]. unfold bcoef.
+      rewrite (alpha_zero (Kins a) (mua a) _ Hm1 q i) by (unfold mua; lia).
+      rewrite (J2 (i - 1)%nat) by (unfold mua; lia).
+      replace (i - 1 - a)%nat with (i - S a)%nat by lia. ring.
+Qed.
+
+(* a + 1 Boehm steps, exact for every t *)
+Lemma chain side t a N : (mu + a * n <= N)%nat ->
+  sumf (fun i => c i * B side K q i t) 0 N
+  = sumf (fun i => cins (S a) i * B side (Kins (S a)) q i t) 0 (N + S a).
+Proof.
+  revert N. induction a as [|a IH]; intros N HN.
+  - cbn [cins Kins]. replace (N + 1)%nat with (S N) by lia.
+    replace (x + INR 0 * T) with x by (cbn [INR]; ring). unfold mua. replace (mu + 0 * (n + 1))%nat with mu by lia.
+    apply (boehm_sum side K HK mu x Hmu1 (proj1 Hx) (proj2 Hx) q c t N); left; lia.
+  - rewrite (IH N) by lia.
+    destruct (Kins_inv (S a)) as (IS & _ & _). destruct (Kins_bracket (S a)) as [Hb1 Hb2].
+    replace (N + S (S a))%nat with (S (N + S a)) by lia.
+    change (cins (S (S a))) with (bcoef (Kins (S a)) (mua (S a)) (x + INR (S a) * T) q (cins (S a))).
+    change (Kins (S (S a))) with (k' (Kins (S a)) (mua (S a)) (x + INR (S a) * T)).
+    apply (boehm_sum side (Kins (S a)) IS (mua (S a)) _ ltac:(unfold mua; lia) Hb1 Hb2 q (cins (S a)) t (N + S a)); left; unfold mua; nia.
+Qed.
+
+(* A. the periodic Boehm identity, exact for every t and both sides: the first mu + a n old functions against the
+      first mu + a (n+1) + 1 new ones (a + 1 images of x inserted, a = 0, 1, 2, ...) *)
+Theorem periodic_boehm_exact side t a :
+  sumf (fun i => c i * B side K q i t) 0 (mu + a * n)
+  = sumf (fun i => cp i * B side Kp q i t) 0 (mu + a * (n + 1) + 1).
+Proof.
+  rewrite (chain side t a (mu + a * n) (le_n _)).
+  replace (mu + a * n + S a)%nat with (mu + a * (n + 1) + 1)%nat by nia.
+  destruct (Kins_inv (S a)) as (_ & I1 & _). destruct (cins_inv (S a)) as (J1 & _).
+  apply sumf_ext. intros i Hi. rewrite J1 by (unfold mua; nia). f_equal.
+  apply SeamContinuity.B_ext. intros j Hj. apply I1. unfold mua. nia.
+Qed.
+
+(* the same for windows of any width, at every t below the last knot K (mu + a n) = K mu + a T of the window *)
+Theorem periodic_boehm side t a N N' : (mu + a * n <= N)%nat -> (mu + a * (n + 1) + 1 <= N')%nat ->
+  before_end side t (K (mu + a * n)%nat) ->
+  sumf (fun i => c i * B side K q i t) 0 N = sumf (fun i => cp i * B side Kp q i t) 0 N'.
+Proof.
+  intros HN HN' Ht.
+  rewrite (sumf_window (fun i => c i * B side K q i t) 0 (mu + a * n) 0 N); [|lia|lia|intros; lia|].
+  2:{ intros i Hi. rewrite (B_support side K HK q i t); [ring|].
+      pose proof (HK (mu + a * n)%nat i ltac:(lia)). unfold outside, before_end in *. destruct side; left; lra. }
+  rewrite (sumf_window (fun i => cp i * B side Kp q i t) 0 (mu + a * (n + 1) + 1) 0 N'); [|lia|lia|intros; lia|].
+  2:{ intros i Hi. rewrite (B_support side Kp Kp_sorted q i t); [ring|].
+      pose proof (Kp_sorted (mu + a * (n + 1) + 1)%nat i ltac:(lia)) as H1.
+      assert (E : Kp (mu + a * (n + 1) + 1) = K (mu + a * n)%nat).
+      { unfold Kp. destruct (Nat.ltb_spec (mu + a * (n + 1) + 1) mu); [lia|].
+        replace (mu + a * (n + 1) + 1 - mu)%nat with (1 + a * (n + 1))%nat by lia.
+        rewrite Nat.mod_add, Nat.div_add by lia. rewrite (Nat.mod_small 1), (Nat.div_small 1) by lia.
+        cbn [Nat.eqb]. f_equal. lia. }
+      rewrite E in H1. unfold outside, before_end in *. destruct side; left; lra. }
+  apply periodic_boehm_exact.
+Qed.
+End PeriodicBoehm.
+
+(* non-vacuity of Part 5: uniform knots K i = i, any degree q, any n > q, x anywhere in [q, n) *)
+Example periodic_boehm_uniform (q n mu : nat) (x : R) (c : nat -> R) side t a :
+  (q < mu <= n)%nat -> (forall i, c (i + n)%nat = c i) -> INR (mu - 1) <= x < INR mu ->
+  sumf (fun i => c i * B side INR q i t) 0 (mu + a * n)
+  = sumf (fun i => cp INR q n c mu x i * B side (Kp INR n (INR n) mu x) q i t) 0 (mu + a * (n + 1) + 1).
+Proof.
+  intros Hmu Hc Hx.
+  apply (periodic_boehm_exact INR ltac:(intros i j H; apply le_INR; exact H) q n (INR n)
+           ltac:(intros i; apply plus_INR) c Hc mu x Hmu Hx).
+Qed.
+
+(* ------------------------------------------------------------------------------------------------ *)
+(* Part 6: one step of lower_periodic (C08): insert the start knot, roll by one, drop the last knot  *)
+(* ------------------------------------------------------------------------------------------------ *)
+Lemma kn_tl (l : list R) i : (S i < length l)%nat -> @kn R NumR (tl l) i = @kn R NumR l (S i).
+Proof.
+  intros H. destruct l as [|a l]; [cbn in H; lia|]. cbn [tl length] in *.
+  rewrite !kn_nth by (cbn [length]; lia). reflexivity.
+Qed.
+
+Lemma net_ok_apply_dir dim (rows : list (list R)) d cps (N' : list R) (C : list (list R)) :
+  (d < length rows)%nat -> net_ok dim rows cps -> (0 < prodl (map (@length R) rows))%nat ->
+  row_rel (nth d rows []) N' C ->
+  net_ok dim (@upd (list R) rows d N') (@apply_dir R NumR dim (map (@length R) rows) d C cps).
+Proof.
+  intros Hd [Hv Hl] Hpos RR. split; [apply Forall_apply_dir; exact Hv|].
+  rewrite length_apply_dir; [| rewrite map_length; exact Hd | exact Hl | exact Hpos ].
+  f_equal. destruct RR as (HC1 & _). rewrite HC1.
+  clear. revert d. induction rows as [|a rows IHr]; intros d; [reflexivity|]. destruct d; cbn [upd map]; [reflexivity|]. f_equal. apply IHr.
+Qed.
+
+Lemma prodl_upd_pos (rows : list (list R)) d (N' : list R) :
+  (0 < prodl (map (@length R) rows))%nat -> (0 < length N')%nat ->
+  (0 < prodl (map (@length R) (@upd (list R) rows d N')))%nat.
+Proof.
+  revert d. induction rows as [|a rows IH]; intros d Hp HN; [destruct d; exact Hp|].
+  unfold prodl in *. cbn [map fold_right] in Hp. destruct d; cbn [upd map fold_right].
+  - nia.
+  - specialize (IH d). assert (0 < fold_right Nat.mul 1 (map (@length R) rows))%nat by nia.
+    specialize (IH H HN). nia.
+Qed.
+
+Section LowerStep.
+Variable k : list R.
+Variables (p per1 n : nat) (T : R).
+Hypothesis Hcan : per_canon k p per1 n T.
+Local Notation K := (@kn R NumR k).
+Local Notation q := (p - 1)%nat.
+Local Notation x := (K (p - 1)%nat).                   (* the start knot *)
+Local Notation mu := (@py_bisect_right R NumR k x).
+Local Notation knew := (knew_model k p per1 x).
+Local Notation Cmat := (@mat_of_writes R NumR (n + 1) n (@insert_writes R NumR k p n mu x)).
+
+Lemma start_in_domain : K (p - 1)%nat <= x < K (n + per1)%nat.
+Proof.
+  pose proof Hcan as (_ & _ & _ & _ & _ & HT & _). rewrite (canon_period k p per1 n T Hcan). lra.
+Qed.
+
+Let Hcan' : per_canon knew p per1 (n + 1) T := canon_insert_canon k p per1 n T Hcan x start_in_domain.
+
+(* after the insertion the start knot has one more copy: knot p of the new list is the start knot *)
+Lemma knew_p : @kn R NumR knew p = x.
+Proof.
+  pose proof Hcan as (HK & Hper1 & Hpp & Hlen & Hreg & _).
+  destruct (mu_bracket_per k p per1 n T Hcan x start_in_domain) as [Hmu [Hb1 Hb2]].
+  rewrite (window_knots k p per1 n T Hcan x start_in_domain) by lia.
+  destruct (Nat.eq_dec p mu) as [E|E].
+  - rewrite E at 2. apply k'_eq.
+  - rewrite k'_lt by lia. pose proof (HK (p - 1)%nat p ltac:(lia)). pose proof (HK p (mu - 1)%nat ltac:(lia)). lra.
+Qed.
+
+(* roll(1) followed by dropping the last knot = dropping the first knot *)
+Lemma roll_drop :
+  let kk := b_knots (@basis_roll R NumR (mkBasis p knew per1) 1) in
+  firstn (length kk - 1) kk = tl knew.
+Proof.
+  pose proof Hcan' as (HK' & Hper1 & Hpp & Hlen' & Hreg' & HT & _ & Himg').
+  cbv zeta. unfold basis_roll. cbn [b_knots b_order b_per1]. unfold slice_list.
+  set (t1 := @nsub R NumR (@kn R NumR knew 0) (@kn R NumR knew (length knew - p - per1))).
+  assert (Et1 : t1 = - T).
+  { unfold t1. cbn [nsub NumR]. replace (length knew - p - per1)%nat with (0 + (n + 1))%nat by lia. rewrite Himg' by lia. ring. }
+  assert (Ltl : length (tl knew) = (n + per1 + p)%nat) by (destruct knew; cbn [tl length] in *; lia).
+  assert (Ll : length (firstn (length knew - p - per1 - 1) (skipn 1 knew)) = n).
+  { rewrite firstn_length, skipn_length. lia. }
+  rewrite Ll. replace (length knew - p - per1 - 1)%nat with n by lia.
+  replace (length knew - n - 0)%nat with (per1 + p + 1)%nat by lia.
+  change (skipn 0 knew) with knew. change (skipn 1 knew) with (tl knew).
+  apply (nth_ext _ _ 0 0).
+  - rewrite firstn_length, !app_length, map_length, !firstn_length, Ltl. lia.
+  - intros i Hi. rewrite firstn_length, !app_length, map_length, !firstn_length, Ltl in Hi.
+    rewrite InsertMatrix.nth_firstn_lt by (rewrite !app_length, map_length, !firstn_length, Ltl; lia).
+    destruct (Nat.lt_ge_cases i n) as [A|A].
+    + rewrite app_nth1 by (rewrite firstn_length, Ltl; lia). apply InsertMatrix.nth_firstn_lt. exact A.
+    + rewrite app_nth2 by (rewrite firstn_length, Ltl; lia). rewrite firstn_length, Ltl. replace (Nat.min n (n + per1 + p)) with n by lia.
+      rewrite (nth_map0 (fun v => @nsub R NumR v t1)) by (rewrite firstn_length; lia).
+      rewrite InsertMatrix.nth_firstn_lt by lia. cbn [nsub NumR]. rewrite Et1.
+      destruct knew as [|a0 l0] eqn:Ek; [cbn in Hlen'; lia|]. cbn [tl]. rewrite <- Ek.
+      change (nth i l0 0) with (nth (S i) (a0 :: l0) 0). rewrite <- Ek.
+      rewrite <- !kn_nth by lia. replace (S i) with ((i - n) + (n + 1))%nat by lia. rewrite Himg' by lia. ring.
+Qed.
+
+(* the rolled rows: N_old = N_new x roll_matrix on the domain *)
+Theorem roll_row_rel side t : after_start side x t ->
+  row_rel (@ref_row R NumR side knew p per1 0 t) (@ref_row R NumR side (tl knew) p (per1 - 1) 0 t)
+          (@roll_matrix R NumR (n + 1) 1).
+Proof.
+  intros Ht. pose proof Hcan' as (HK' & Hper1 & Hpp & Hlen' & Hreg' & HT & _ & Himg').
+  assert (Ltl : length (tl knew) = (n + per1 + p)%nat) by (destruct knew; cbn [tl length] in *; lia).
+  unfold row_rel. rewrite !ref_row_length. rewrite Ltl, Hlen'.
+  replace (n + 1 + per1 + p - p - per1)%nat with (n + 1)%nat by lia.
+  replace (n + per1 + p - p - (per1 - 1))%nat with (n + 1)%nat by lia.
+  split; [unfold roll_matrix; rewrite map_length, seq_length; reflexivity|]. split.
+  - apply Forall_forall. intros row Hin. unfold roll_matrix in Hin. apply in_map_iff in Hin.
+    destruct Hin as (r0 & <- & _). rewrite map_length, seq_length. reflexivity.
+  - intros j Hj. rewrite ref_row_nth by lia. rewrite Hlen'.
+    replace (n + 1 + per1 + p - p - per1)%nat with (n + 1)%nat by lia. replace (n + 1 + per1 + p - p)%nat with (S (n + per1)) by lia.
+    transitivity (sumf (fun r0 => sumf (fun i => if (i mod (n + 1) =? r0)%nat then B side (@kn R NumR (tl knew)) q i t else 0) 0 (n + per1)
+                                  * ind ((r0 + 1) mod (n + 1)) j) 0 (n + 1)).
+    2:{ apply sumf_ext. intros r0 Hr. rewrite ref_row_nth by lia. rewrite Ltl.
+        replace (n + per1 + p - p - (per1 - 1))%nat with (n + 1)%nat by lia. replace (n + per1 + p - p)%nat with (n + per1)%nat by lia.
+        f_equal. unfold roll_matrix.
+        rewrite (nth_map_gen _ _ r0 [] 0%nat) by (rewrite seq_length; lia). rewrite seq_nth by lia.
+        rewrite (nth_map_gen _ _ j 0 0%nat) by (rewrite seq_length; lia). rewrite seq_nth by lia. cbn [Nat.add n1 n0 NumR].
+        unfold ind. rewrite (Nat.eqb_sym j). reflexivity. }
+    rewrite sumf_wrap_swap by lia.
+    rewrite sumf_S.
+    assert (Z : B side (@kn R NumR knew) q 0 t = 0).
+    { apply (B_support side _ HK'). cbn [Nat.add]. replace (q + 1)%nat with p by lia. rewrite knew_p.
+      unfold outside, after_start in *. destruct side; right; exact Ht. }
+    rewrite Z. replace (if (0 mod (n + 1) =? j)%nat then 0 else 0) with 0 by (destruct (_ =? _)%nat; reflexivity).
+    rewrite Rplus_0_l. rewrite <- sumf_shift. apply sumf_ext. intros i Hi.
+    rewrite Nat.add_mod_idemp_l by lia. replace (i + 1)%nat with (S i) by lia.
+    assert (EB : B side (@kn R NumR (tl knew)) q i t = B side (@kn R NumR knew) q (S i) t).
+    { rewrite <- B_shift1. apply SeamContinuity.B_ext. intros m Hm. apply kn_tl. lia. }
+    rewrite EB. unfold ind. destruct (_ =? _)%nat; ring.
+Qed.
+
+(* the basis of the step and the model's recursion *)
+Definition lower_step_basis : basis R := mkBasis p (tl knew) (per1 - 1).
+
+Lemma lower_step_basis_model :
+  let b1 := mkBasis p knew per1 in
+  let br := @basis_roll R NumR b1 1 in
+  let kk := b_knots br in
+  mkBasis (b_order b1) (firstn (length kk - 1) kk) (b_per1 b1 - 1) = lower_step_basis
+  /\ @b_nfun R b1 = (n + 1)%nat /\ @b_nfun R lower_step_basis = (n + 1)%nat.
+Proof.
+  pose proof Hcan' as (_ & Hper1 & Hpp & Hlen' & _).
+  cbv zeta. split; [|split].
+  - cbn [b_order b_per1]. pose proof roll_drop as E. cbv zeta in E. rewrite E. reflexivity.
+  - unfold b_nfun. cbn [b_knots b_order b_per1]. lia.
+  - unfold b_nfun, lower_step_basis. cbn [b_knots b_order b_per1].
+    assert (Ltl : length (tl knew) = (n + per1 + p)%nat) by (destruct knew; cbn [tl length] in *; lia). lia.
+Qed.
+
+(* D. one step of lower_periodic preserves the map: rows before (periodic, per1), after the insertion of the start knot,
+      and after the roll (per1 - 1); both matrices applied along direction d *)
+Theorem lower_periodic_step_preserves_map dim c side t (rows : list (list R)) d cps :
+  after_start side x t -> before_end side t (K (n + per1)%nat) ->
+  (d < length rows)%nat -> (c < dim)%nat -> nth d rows [] = @ref_row R NumR side k p per1 0 t ->
+  net_ok dim rows cps -> (0 < prodl (map (@length R) rows))%nat ->
+  let rows1 := @upd (list R) rows d (@ref_row R NumR side knew p per1 0 t) in
+  let cps1 := @apply_dir R NumR dim (map (@length R) rows) d Cmat cps in
+  let rows2 := @upd (list R) rows1 d (@ref_row R NumR side (tl knew) p (per1 - 1) 0 t) in
+  let cps2 := @apply_dir R NumR dim (map (@length R) rows1) d (@roll_matrix R NumR (n + 1) 1) cps1 in
+  coord c (@teval R NumR dim rows2 cps2) = coord c (@teval R NumR dim rows cps).
+Proof.
+  intros Hs He Hd Hc Hrow Hnet Hpos. cbv zeta.
+  pose proof Hcan' as (_ & Hper1 & Hpp & Hlen' & _).
+  assert (RR1 : row_rel (nth d rows []) (@ref_row R NumR side knew p per1 0 t) Cmat).
+  { rewrite Hrow. apply (canon_insert_row_rel k p per1 n T Hcan x start_in_domain side t Hs He). }
+  set (rows1 := @upd (list R) rows d (@ref_row R NumR side knew p per1 0 t)).
+  assert (Hd1 : (d < length rows1)%nat) by (unfold rows1; rewrite InsertEndToEnd.upd_length; exact Hd).
+  assert (Hnet1 : net_ok dim rows1 (@apply_dir R NumR dim (map (@length R) rows) d Cmat cps)).
+  { apply net_ok_apply_dir; assumption. }
+  assert (Hpos1 : (0 < prodl (map (@length R) rows1))%nat).
+  { apply prodl_upd_pos; [exact Hpos|]. rewrite ref_row_length. lia. }
+  assert (RR2 : row_rel (nth d rows1 []) (@ref_row R NumR side (tl knew) p (per1 - 1) 0 t) (@roll_matrix R NumR (n + 1) 1)).
+  { unfold rows1. rewrite InsertEndToEnd.upd_nth_same by exact Hd. apply roll_row_rel. exact Hs. }
+  rewrite (preserves_map_of_row_rel dim c rows1 d _ _ _ Hd1 Hc Hnet1 Hpos1 RR2).
+  apply (preserves_map_of_row_rel dim c rows d cps _ _ Hd Hc Hnet Hpos RR1).
+Qed.
+
+(* the model's recursion performs exactly this step *)
+Theorem obj_lower_periodic_step (o : obj R) d fuel target :
+  nth d (o_bases o) (mkBasis 0 [] 0) = mkBasis p k per1 -> (target < per1)%nat ->
+  let o1 := mkObj (upd (o_bases o) d (mkBasis p knew per1))
+                  (@apply_dir R NumR (@o_ncomp R o) (@o_shape R o) d Cmat (o_cps o)) (o_dim o) (o_rat o) in
+  nth d (o_bases o1) (mkBasis 0 [] 0) = mkBasis p knew per1 ->     (* i.e. d < length (o_bases o) *)
+  @obj_lower_periodic R NumR (S fuel) o target d
+  = @obj_lower_periodic R NumR fuel (@obj_along R NumR o1 d lower_step_basis (@roll_matrix R NumR (n + 1) 1)) target d.
+Proof.
+  intros Hb Ht o1 Hb1.
+  cbn [obj_lower_periodic]. rewrite Hb. cbn [b_per1].
+  destruct (Nat.ltb_spec target per1); [|lia].
+  cbn [obj_insert_knots]. rewrite Hb.
+  change (@b_start R NumR (mkBasis p k per1)) with x.
+  rewrite (insert_knot_unfold k p per1 n T Hcan x start_in_domain).
+  fold knew. fold o1. rewrite Hb1.
+  destruct lower_step_basis_model as (E1 & E2 & _). cbv zeta in E1. rewrite E1, E2. reflexivity.
+Qed.
+End LowerStep.
+
+Print Assumptions basis_insert_knot_periodic.
+Print Assumptions basis_insert_knot_periodic_interior.
+Print Assumptions insert_knot_periodic_interior_preserves_map.
+Print Assumptions insert_knot_periodic_preserves_map.
+Print Assumptions periodic_boehm.
+Print Assumptions lower_periodic_step_preserves_map.
+Print Assumptions obj_lower_periodic_step.
